@@ -24,7 +24,9 @@ MANIFEST_ENTRY = {
             "list -- assignments, calls with all parameter forms, IF / ELSIF / ELSE, CASE, FOR [BY], WHILE, REPEAT, EXIT, RETURN, any nesting "
             "-- is a well-formed spelling of the list, so the parser model reads back exactly the list, through the function-block "
             "entry point and with its fuel; the guard excludes negative integer constants and negative CASE selector bounds (written '- 5': refuted by witnesses, "
-            "the recorded finding). The renderer model is compared token for token with write_to_string. "
+            "the recorded finding); (declarations) the variable declarations of a function block -- one block per variable with its class "
+            "and qualifier, elementary or named type, constant or enumerated initial value, edge inputs -- are read back exactly "
+            "(C10_declarations_parse_render; a negative initial value is refuted). The renderer model is compared token for token with write_to_string. "
             "For declarations and the remaining statement forms the round trip is decided by search: every generated unit and every fixture is parsed, rendered, re-parsed and compared with Rust's ==; the second "
             "rendering must equal the first. The renderer has several recorded defects (known findings) whose classes are excluded by "
             "predicates on the unit and on the way the round trip fails.",
@@ -194,6 +196,8 @@ def search(run, info):
                               {"input": {"text": t}}, no_input=True)
     # ---- the statement renderer model (C10_statements_parse_render) against write_to_string ----
     st_render_n = st_corr.check_render(run, info, 200 if run.tier == "quick" else 4000, "c10")
+    # ... and for function blocks with variable declarations (C10_declarations_parse_render)
+    decl_render_n = st_corr.check_render_fbd(run, info, 200 if run.tier == "quick" else 4000, "c10")
     return {"coverage": {
         "statement_renderer_outputs_compared_with_model": st_render_n,
         "rule": "parse -> render -> parse -> render on units of the AST-level generator, the exhaustive operator-pair and statement-nesting "
